@@ -111,7 +111,7 @@ func runCodecs(seed uint64, n int, tier string, out string, replay string) {
 	codecsOut = out
 	rnd := hx.NewRand(seed)
 	sum := hx.NewSummary("codecs", seed)
-	sum.Rule = "Coq-evaluated cases: (a) level handling — a profile configured with each value of {0..13, 99, 2^31-1, 2^31, 2^32-1, 2^32+5} through compress.Reset; pike's gzip/brotli output for a probe body is compared with the reference encoders at every level to identify the level in effect; (b) decoder dispatch for the five documented encodings, identity and unsupported names; (c) LZ4 blocks — encoder outputs for n small bodies, hand-made high-ratio blocks (0..6 length-extension bytes: up to 1.5 KiB from 11 bytes), truncated blocks — pike's LZ4Decode vs the block-decoder model. Go-side only (volume): round trips of bodies 0 B..1 MiB (random, text, zeros, pattern) through pike's gzip/brotli at levels -1..12 decoded by pike AND by the reference decoders; all five pike decoders on reference-encoded streams incl. 1 MiB of zeros; 200 mutated streams per decoder under recover + 20 s watchdog; structured valid streams (multi-member / header-field / stored / huffman-only gzip, multi-frame and checksummed zstd, brotli at several qualities and window sizes and with flushes, literal-only snappy, LZ4 HC block) must be restored in full; ~90 crafted malformed streams (extreme declared sizes and flag combinations in zstd / snappy / gzip / brotli / lz4 framing) under recover + watchdog; 24 goroutines x 12 concurrent gzip+brotli encodes at shared levels, each stream decoded by the reference decoders. non-trivial = level case outside 1..9 or block with ratio > 10; distinct by case content"
+	sum.Rule = "Coq-evaluated cases: (a) level handling — a profile configured with each value of {0..13, 99, 2^31-1, 2^31, 2^32-1, 2^32+5} through compress.Reset; pike's gzip/brotli output for a probe body is compared with the reference encoders at every level to identify the level in effect; (b) decoder dispatch for the five documented encodings, identity and unsupported names; (c) LZ4 blocks — encoder outputs for n small bodies, hand-made high-ratio blocks (0..6 length-extension bytes: up to 1.5 KiB from 11 bytes), truncated blocks — pike's LZ4Decode vs the block-decoder model. Go-side only (volume): round trips of bodies 0 B..1 MiB (random, text, zeros, pattern) through pike's gzip/brotli at levels -1..12 decoded by pike AND by the reference decoders; all five pike decoders on reference-encoded streams incl. 1 MiB of zeros; 200 mutated streams per decoder under recover + 20 s watchdog; structured valid streams (multi-member / header-field / stored / huffman-only gzip, multi-frame and checksummed zstd, brotli at several qualities and window sizes and with flushes, literal-only snappy, LZ4 HC block) must be restored in full; every length 0..2048 of three one-byte-repeated payloads through snappy, zstd and lz4; ~90 crafted malformed streams (extreme declared sizes and flag combinations in zstd / snappy / gzip / brotli / lz4 framing) under recover + watchdog; 24 goroutines x 12 concurrent gzip+brotli encodes at shared levels, each stream decoded by the reference decoders. non-trivial = level case outside 1..9 or block with ratio > 10; distinct by case content"
 	header := "From Coq Require Import List NArith ZArith.\nImport ListNotations.\nFrom Pike Require Import Base.Bytes Model.Compress Model.LZ4 Corr.C12Corr.\n"
 	w := hx.NewCaseWriter(out, "codecs", header, "list c12_case", "check_cases", 60, sum)
 	distinct := hx.NewDistinct()
@@ -358,6 +358,31 @@ func runCodecs(seed uint64, n int, tier string, out string, replay string) {
 		if err != nil || !bytes.Equal(d, v.want) {
 			sum.ImplViolations = append(sum.ImplViolations, map[string]interface{}{"property": "C12", "kind": "valid-stream-not-restored", "codec": v.codec, "shape": v.shape, "stream_len": len(v.stream), "want_len": len(v.want), "got_len": len(d), "error": fmt.Sprint(err)})
 		}
+	}
+	// ---- every length 0..2048 of three repetitive payloads through the block / frame codecs: exact lengths
+	// at which a block's first bytes coincide with another format's magic must not matter
+	{
+		zw, _ := zstd.NewWriter(nil)
+		for _, fill := range []byte{0x00, 'a', 0xff} {
+			for size := 0; size <= 2048; size++ {
+				body := bytes.Repeat([]byte{fill}, size)
+				streams := map[string][]byte{"snz": snappy.Encode(nil, body), "zst": zw.EncodeAll(body, nil)}
+				if size > 0 {
+					lzbuf := make([]byte, lz4.CompressBlockBound(size))
+					if nn, err := lz4.CompressBlock(body, lzbuf, nil); err == nil && nn > 0 {
+						streams["lz4"] = lzbuf[:nn]
+					}
+				}
+				for enc, stream := range streams {
+					d, err := compress.Get("").Decompress(enc, stream)
+					rt++
+					if err != nil || !bytes.Equal(d, body) {
+						sum.ImplViolations = append(sum.ImplViolations, map[string]interface{}{"property": "C12", "kind": "valid-stream-not-restored", "codec": enc, "shape": fmt.Sprintf("%d x %#x", size, fill), "stream_len": len(stream), "want_len": size, "got_len": len(d), "error": fmt.Sprint(err)})
+					}
+				}
+			}
+		}
+		sum.Count("repetitive-length-sweep")
 	}
 	// ---- crafted malformed streams: well-formed framing with extreme declared sizes / flag combinations
 	// (random bit flips almost never produce these); none may panic or hang a decoder
